@@ -8,3 +8,7 @@ Definition result_case (t:Z * bool) : list Z :=
   let '(rc, plain) := t in
   if plain then [enc_pres (fst (clang_result rc true false)); zb (snd (clang_result rc true false))]
   else [enc_pres (fst (cbs_result rc true false)); zb (snd (cbs_result rc true false))].
+(* the count query failed in one of three ways, or reported n: what count_instances returns, and whether new() yields a cursor *)
+Definition query_case (t:Z * Z) : list Z :=
+  let q := match fst t with 0%Z => QTimeout | 1%Z => QError | 2%Z => QNoCount | _ => QCount (snd t) end in
+  query_count q :: match cbs_new q with None => [0%Z] | Some (i, c, n) => [1%Z; i; c; n] end.
